@@ -57,7 +57,7 @@ def main(ctx, cases=None):
     quick = ctx.tier == "quick"
     b = build.build("plain")
     tr_ok, classes = pl.regen(ctx, b)
-    proofs_ok = ctx.lean_props("C07All", extra_modules=["Ecpint.Props.C07", "Ecpint.Props.C07Gen", "Ecpint.Props.C07b"]) if tr_ok else False
+    proofs_ok = ctx.lean_props("C07All", extra_modules=["Ecpint.Props.C07", "Ecpint.Props.C07Gen", "Ecpint.Props.C07b", "Ecpint.Props.C07c"]) if tr_ok else False
     drv = pl.pair_driver(b)
     if cases is None:
         base = c01.gen_cases(rng, quick, 5)
